@@ -223,6 +223,38 @@ pub mod decrypt {
         -> (r: Result<(), DecryptError>)
     { unimplemented!() }
 }
+pub enum AsymFileFormat { V1 }
+#[verifier::external_body]
+pub struct PayloadKey { k: [u8; 32] }
+pub mod encrypt_k {
+    use vstd::prelude::*;
+    use super::*;
+    /// kestrel_crypto::encrypt::key_encrypt as the CLI calls it (contract: units/crypto.vt; opaque here - only the
+    /// provenance of the key ARGUMENTS is checked at the call site)
+    #[verifier::external_body]
+    pub fn key_encrypt(plaintext: &mut Box<dyn VRead>, ciphertext: &mut Box<dyn VWrite>, sender: &kestrel_crypto::PrivateKey,
+        sender_public: &kestrel_crypto::PublicKey, recipient: &kestrel_crypto::PublicKey, ephemeral: Option<&kestrel_crypto::PrivateKey>,
+        ephemeral_public: Option<&kestrel_crypto::PublicKey>, payload_key: Option<&PayloadKey>, file_format: AsymFileFormat)
+        -> (r: Result<(), EncryptError>)
+    { unimplemented!() }
+}
+pub mod decrypt_k {
+    use vstd::prelude::*;
+    use super::*;
+    #[verifier::external_body]
+    pub fn key_decrypt(ciphertext: &mut Box<dyn VRead>, plaintext: &mut Box<dyn VWrite>, recipient: &kestrel_crypto::PrivateKey,
+        recipient_public: &kestrel_crypto::PublicKey, file_format: AsymFileFormat) -> (r: Result<kestrel_crypto::PublicKey, DecryptError>)
+        ensures r matches Ok(pk) ==> pk.wf()
+    { unimplemented!() }
+}
+/// std::fs::read / String::from_utf8 as open_keyring uses them: total, results unconstrained
+#[verifier::external_body]
+pub fn v_fs_read(path: PathBuf) -> (r: vio::Result<Vec<u8>>) { unimplemented!() }
+pub struct FromUtf8Error;
+#[verifier::external_body]
+pub fn v_string_from_utf8(v: Vec<u8>) -> (r: Result<String, FromUtf8Error>) { unimplemented!() }
+#[verifier::external_body]
+pub fn v_pathbuf_from_string(s: String) -> (r: PathBuf) { unimplemented!() }
 impl From<DecryptError> for AnyhowError { #[verifier::external_body] fn from(e: DecryptError) -> AnyhowError { AnyhowError } }
 impl From<EncryptError> for AnyhowError { #[verifier::external_body] fn from(e: EncryptError) -> AnyhowError { AnyhowError } }
 
